@@ -73,7 +73,7 @@ def calibration():
 
 # the seed-independent matrices come first in these checks: start a few cases before their end, so that the
 # compared range holds both matrix cases and seeded ones
-FIRST = {'C01': 772, 'C02': 196, 'C04': 1145, 'C05': 1458, 'C10': 2593, 'C15': 136}
+FIRST = {'C01': 772, 'C02': 196, 'C04': 1185, 'C05': 1458, 'C10': 2593, 'C15': 136}
 
 
 def digests(prop, cases, workers, hashseed, seed):
